@@ -44,8 +44,35 @@ pub fn record(seed: u64, tier: &str, out: &str) {
             }
         }
     }
+    // limits between the exhaustive range and the large ones, at a fixed stride (every position class of N relative
+    // to bounds that are only asymptotically valid shows up somewhere): sampled entries, the end of the prime list
+    let stride = if thorough { 7 } else { 61 };
+    let mut n = max_n + 1;
+    while n <= 140_000 {
+        match catch(|| Sieve::new(n)) {
+            Err(p) => t.ev(json!({"ev": "bigsample", "N": n, "panic": p})),
+            Ok(s) => {
+                let mut picks: Vec<i32> = (0..5).map(|k| (n - k) as i32).collect();
+                for _ in 0..5 {
+                    picks.push(2 + rng.below(n as u64 - 1) as i32);
+                }
+                match catch(|| picks.iter().map(|&x| json!([x, s.min_prime(x), s.is_prime(x), fact(&s, x)])).collect::<Vec<Value>>()) {
+                    Ok(rows) => {
+                        entries += rows.len() as u64;
+                        t.ev(json!({"ev": "bigsample", "N": n, "rows": rows}));
+                    }
+                    Err(p) => t.ev(json!({"ev": "bigsample", "N": n, "panic": p})),
+                }
+                let primes = s.primes();
+                let k = primes.len();
+                let pairs: Vec<Value> = [k - 2, rng.usize(k - 1)].iter().map(|&i| json!([i, primes[i], primes[i + 1]])).collect();
+                t.ev(json!({"ev": "bigprimes", "N": n, "len": k, "pairs": pairs, "last": primes[k - 1]}));
+            }
+        }
+        n += stride;
+    }
     // large limits
-    let bigs: &[usize] = if thorough { &[1_000_000, 10_000_000] } else { &[1_000_000] };
+    let bigs: &[usize] = if thorough { &[1_000_000, 2_000_000, 10_000_000] } else { &[1_000_000, 2_000_000] };
     for &n in bigs {
         let r = catch(|| Sieve::new(n));
         let s = match r {
@@ -63,8 +90,13 @@ pub fn record(seed: u64, tier: &str, out: &str) {
                 0 => *rng.pick(&primes),
                 1 => {
                     // prime squares and their neighbours
-                    let p = *rng.pick(&primes[..primes.len().min(168.max(((n as f64).sqrt() as usize) / 8))]) as i64;
-                    ((p * p + rng.below(3) as i64 - 1).min(n as i64)).max(2) as i32
+                    // (any prime up to sqrt(N), the largest ones most often: p^2 and p^3 sit at the i32 boundaries there)
+                    let upto = primes.partition_point(|&q| (q as i64) * (q as i64) <= n as i64).max(1);
+                    let p = if rng.chance(1, 2) { primes[upto - 1 - rng.usize(upto.min(40))] } else { *rng.pick(&primes[..upto]) } as i64;
+                    let sq = p * p;
+                    // the square itself, its neighbours, and the square times a small cofactor
+                    let v = match rng.below(5) { 0 => sq - 1, 1 => sq + 1, 2 => sq * (2 + rng.below(4) as i64), _ => sq };
+                    (if v <= n as i64 { v } else { sq }).max(2) as i32
                 }
                 2 => {
                     // product of two large primes
